@@ -69,7 +69,7 @@ type Params struct {
 //
 //	Target: respq.{nonce,server_nonce,pq,fingerprints,ctor}  dhok.{nonce,server_nonce,cipher,hash,pad,ctor}
 //	        inner.{nonce,server_nonce,g,dh_prime,g_a,server_time,ctor}  genok.{nonce,server_nonce,hash,ctor}
-//	Kind:   flip (bit Pos of the field's bytes) | random (Rand) | other (the other nonce) | zero |
+//	Kind:   flip (bit Pos of the field's bytes) | random (Rand) | other (the other nonce) | zero | shr8 | shl8 (bytes moved) |
 //	        ctor:<name> | len:<n> (padding / truncation variants) | none-match (fingerprints)
 //	Adopt:  the server itself continues with the altered value (for fields the client cannot check:
 //	        server_nonce and pq of resPQ); otherwise the server keeps its own value.
@@ -527,6 +527,14 @@ func Corrupt(f *Fault, v, other []byte) []byte {
 		out = append([]byte(nil), other...)
 	case "set":
 		out = append([]byte(nil), f.Rand...)
+	case "shr8": // the same digits one byte further right: 00 | v[:n-1]  (the value divided by 256)
+		if len(v) > 0 {
+			out = append([]byte{0}, v[:len(v)-1]...)
+		}
+	case "shl8": // one byte further left: v[1:] | 00
+		if len(v) > 0 {
+			out = append(append([]byte(nil), v[1:]...), 0)
+		}
 	}
 	return out
 }
